@@ -78,6 +78,7 @@ func main() {
 	limit := flag.Int("limit", 20000, "max schedules in exhaustive mode")
 	sample := flag.Int("sample", 2, "number of passing runs to print with their trace")
 	traces := flag.Int("traces", 0, "number of passing runs whose full trace is exported for model conformance (K2)")
+	only := flag.String("only", "", "a scenario shared by several properties prefixes its problems \"Cnn:\"; keep this property's (and unprefixed ones)")
 	flag.Parse()
 	sc, ok := scenarios[*name]
 	if !ok {
@@ -96,6 +97,16 @@ func main() {
 	distinct := map[string]bool{}
 	cfgs := map[string]int{}
 	record := func(res runResult) {
+		if *only != "" {
+			var kept []string
+			for _, p := range res.Problems {
+				prefixed := len(p) > 3 && p[0] == 'C' && p[3] == ':'
+				if !prefixed || strings.HasPrefix(p, *only) {
+					kept = append(kept, p)
+				}
+			}
+			res.Problems = kept
+		}
 		total++
 		steps += len(res.Choices)
 		key := res.Config + ";" + fmt.Sprint(res.Choices)
